@@ -3,6 +3,7 @@ package interp
 import (
 	"go/ast"
 	"go/build"
+	"go/build/constraint"
 	"go/parser"
 	"path"
 	"path/filepath"
@@ -18,6 +19,23 @@ func (interp *Interpreter) buildOk(ctx *build.Context, name, src string) (bool, 
 	f, err := parser.ParseFile(interp.fset, name, src, parser.PackageClauseOnly|parser.ParseComments)
 	if err != nil {
 		return false, err
+	}
+	// A //go:build line takes precedence over any // +build line.
+	for _, g := range f.Comments {
+		for _, c := range g.List {
+			if !constraint.IsGoBuild(c.Text) {
+				continue
+			}
+			x, err := constraint.Parse(c.Text)
+			if err != nil {
+				return false, err
+			}
+			if !x.Eval(func(tag string) bool { return buildTagOk(ctx, tag) }) {
+				return false, nil
+			}
+			setYaegiTags(ctx, f.Comments)
+			return true, nil
+		}
 	}
 	for _, g := range f.Comments {
 		// in file, evaluate the AND of multiple line build constraints
@@ -71,6 +89,8 @@ func buildTagOk(ctx *build.Context, s string) (r bool) {
 	case s == ctx.GOOS:
 		r = true
 	case s == ctx.GOARCH:
+		r = true
+	case s == "unix" && unixOs[ctx.GOOS]:
 		r = true
 	case len(s) > 4 && s[:4] == "go1.":
 		if n, err := strconv.Atoi(s[4:]); err != nil {
@@ -141,29 +161,24 @@ func skipFile(ctx *build.Context, p string, skipTest bool) bool {
 	if skipTest && strings.HasSuffix(p, "_test") {
 		return true
 	}
+	// Same rule as go/build: the name is cut at the first dot, everything before
+	// the first underscore is ignored, as well as a trailing _test element, and
+	// only elements known as OS or architecture are constraints.
+	p, _, _ = strings.Cut(p, ".")
 	i := strings.Index(p, "_")
 	if i < 0 {
 		return false
 	}
-	a := strings.Split(p[i+1:], "_")
-	last := len(a) - 1
-	if last-1 >= 0 {
-		switch x, y := a[last-1], a[last]; {
-		case x == ctx.GOOS:
-			if knownArch[y] {
-				return y != ctx.GOARCH
-			}
-			return false
-		case knownOs[x] && knownArch[y]:
-			return true
-		case knownArch[y] && y != ctx.GOARCH:
-			return true
-		default:
-			return false
-		}
+	a := strings.Split(p[i:], "_")
+	if n := len(a); n > 0 && a[n-1] == "test" {
+		a = a[:n-1]
 	}
-	if x := a[last]; knownOs[x] && x != ctx.GOOS || knownArch[x] && x != ctx.GOARCH {
-		return true
+	n := len(a)
+	if n >= 2 && knownOs[a[n-2]] && knownArch[a[n-1]] {
+		return !buildTagOk(ctx, a[n-1]) || !buildTagOk(ctx, a[n-2])
+	}
+	if n >= 1 && (knownOs[a[n-1]] || knownArch[a[n-1]]) {
+		return !buildTagOk(ctx, a[n-1])
 	}
 	return false
 }
@@ -174,30 +189,60 @@ var knownOs = map[string]bool{
 	"darwin":    true,
 	"dragonfly": true,
 	"freebsd":   true,
+	"hurd":      true,
 	"illumos":   true,
 	"ios":       true,
 	"js":        true,
 	"linux":     true,
+	"nacl":      true,
 	"netbsd":    true,
 	"openbsd":   true,
 	"plan9":     true,
 	"solaris":   true,
 	"wasip1":    true,
 	"windows":   true,
+	"zos":       true,
+}
+
+// unixOs is the set of GOOS values matched by the "unix" build tag.
+var unixOs = map[string]bool{
+	"aix":       true,
+	"android":   true,
+	"darwin":    true,
+	"dragonfly": true,
+	"freebsd":   true,
+	"hurd":      true,
+	"illumos":   true,
+	"ios":       true,
+	"linux":     true,
+	"netbsd":    true,
+	"openbsd":   true,
+	"solaris":   true,
 }
 
 var knownArch = map[string]bool{
-	"386":      true,
-	"amd64":    true,
-	"arm":      true,
-	"arm64":    true,
-	"loong64":  true,
-	"mips":     true,
-	"mips64":   true,
-	"mips64le": true,
-	"mipsle":   true,
-	"ppc64":    true,
-	"ppc64le":  true,
-	"s390x":    true,
-	"wasm":     true,
+	"386":         true,
+	"amd64":       true,
+	"amd64p32":    true,
+	"arm":         true,
+	"armbe":       true,
+	"arm64":       true,
+	"arm64be":     true,
+	"loong64":     true,
+	"mips":        true,
+	"mipsle":      true,
+	"mips64":      true,
+	"mips64le":    true,
+	"mips64p32":   true,
+	"mips64p32le": true,
+	"ppc":         true,
+	"ppc64":       true,
+	"ppc64le":     true,
+	"riscv":       true,
+	"riscv64":     true,
+	"s390":        true,
+	"s390x":       true,
+	"sparc":       true,
+	"sparc64":     true,
+	"wasm":        true,
 }
